@@ -109,6 +109,43 @@ def eval_case(case):
             issues.append(C.issue("C02:auxdata_order:set", f"auxdata_order {cfg.auxdata_order} != constrained parameters of the spec", **ctx0))
             return dict(issues=issues, nontrivial=nontrivial, outcome="bad-order", comparisons=ncmp)
         pts = L.points(spec, case.get("seed", 0), ps, boundary=False)[1:3]
+        # measurement-level settings reach the model whichever way the measurement is selected (by name or by index)
+        if case.get("ov") is not None:
+            base_labels, base_spec = S.build(case["skel"], tuple(case["combo"]))
+            wsd = S.workspace(base_spec, measurements=1)
+            wsd["measurements"].append({"name": "with_override", "config": {"poi": "mu", "parameters": [dict(p_) for p_ in spec["parameters"]]}})
+            ws = pyhf.Workspace(wsd)
+            vals = pts[0][1]
+            main = L.main_data(spec, "frac", 0)
+            for sel, sp_, kw in (("index=1", spec, dict(measurement_index=1)), ("name", spec, dict(measurement_name="with_override")), ("index=0", base_spec, dict(measurement_index=0))):
+                try:
+                    mw = ws.model(**kw)
+                except Exception as e:
+                    issues.append(C.issue(f"C02:measurement:{type(e).__name__}", f"Workspace.model({kw}) raised {e}"[:200], **ctx0))
+                    continue
+                psx = H.paramsets(sp_)
+                aux = L.aux_data(sp_, 1, psx)
+                dvx = L.data_vector(mw.config, main, aux)
+                tmx = []
+                refx = H.logpdf(sp_, vals, main, aux, ps=psx, terms=tmx)
+                gotx = float(C.tolist(mw.logpdf(C.tens(L.vector(mw.config, vals)), C.tens(dvx)))[0])
+                ncmp += 1
+                if not abs(gotx - float(refx)) <= K * eps * (float(sum(tmx)) + 1):
+                    issues.append(C.issue("C02:measurement_selection", f"model of the measurement selected by {sel}: logpdf {gotx!r}, the template with that measurement's settings gives {float(refx)!r}", **ctx0))
+        # batched or not: three distinct rows of a batch-3 model against the template (full batch matrix: C10)
+        if len(case["combo"]) <= 1 and case.get("ov") is None:
+            mb = pyhf.Model(spec, poi_name="mu", batch_size=3)
+            rows = [pts[0][1], pts[1][1], {n: ([-x for x in v] if ps[n]["kind"] == "alpha" else [x * 0.93 + 0.05 for x in v]) for n, v in pts[1][1].items()}]
+            main = L.main_data(spec, "frac", 0)
+            aux = L.aux_data(spec, 0, ps)
+            dv = L.data_vector(mb.config, main, aux)
+            got = C.tolist(mb.logpdf(C.tens([L.vector(mb.config, r) for r in rows]), C.tens([dv, dv, dv])))
+            for ri, r in enumerate(rows):
+                tmx = []
+                refx = H.logpdf(spec, r, main, aux, ps=ps, terms=tmx)
+                ncmp += 1
+                if not abs(float(got[ri]) - float(refx)) <= K * eps * (float(sum(tmx)) + 1):
+                    issues.append(C.issue("C02:batched_logpdf", f"row {ri} of a batch-3 model: logpdf {float(got[ri])!r}, template {float(refx)!r}", **ctx0))
         for pl, vals in pts:
             pv = C.tens(L.vector(cfg, vals))
             # expected_auxdata
